@@ -42,7 +42,7 @@ type edit struct {
 var (
 	lockDirs  = []string{"internal", "pkg", "cdr/cdrFile", "cdr/cdrConvert"}
 	fileDirs  = []string{"cdr/cdrFile", "internal/cgf", "internal/sbi/processor"}
-	yieldDirs = []string{"internal/context", "internal/sbi/processor", "internal/abmf", "internal/rating", "internal/sbi", "internal/cgf"}
+	yieldDirs = []string{"internal/context", "internal/sbi/processor", "internal/abmf", "internal/rating", "internal/sbi", "internal/cgf", "cdr/cdrFile"}
 )
 
 // the part of package os that the CDR file code may use; everything listed exists in rt
